@@ -19,25 +19,30 @@ func init() {
 }
 
 // The mandatory-field rule on its own: whatever the signed-field list looks
-// like (any order, repeats, env:: entries, unknown names), the step hands out
-// values exactly when all five mandatory fields occur in it and nothing
-// unknown does.
+// like (any order, repeats, env:: entries), the step hands out values exactly
+// when all five mandatory fields occur in it.
 func vpH_c01_fields() {
-	names := []string{"command", "env", "plugins", "matrix", "repository_url", "env::P", "label"}
+	names := []string{"command", "env", "plugins", "matrix", "repository_url", "env::P"}
 	n := vpInt(0, vpParam("fields"))
 	var fields []string
-	var has [7]bool
+	var has [6]bool
 	for i := 0; i < n; i++ {
-		j := vpInt(0, 6)
+		j := vpInt(0, 5)
 		fields = append(fields, names[j])
 		has[j] = true
 	}
 	c := &CommandStepWithInvariants{CommandStep: pipeline.CommandStep{Command: "c"}, RepositoryURL: "r"}
 	vals, err := c.ValuesForFields(fields)
-	if has[0] && has[1] && has[2] && has[3] && has[4] && !has[6] {
-		vpAssert(err == nil && len(vals) == 5, "a field list that covers the five mandatory fields (any order, repeats, env:: entries) yields their five values")
+	if has[0] && has[1] && has[2] && has[3] && has[4] {
+		ok := err == nil
+		for _, f := range names[:5] {
+			if _, present := vals[f]; !present {
+				ok = false
+			}
+		}
+		vpAssert(ok, "a field list that covers the five mandatory fields (any order, repeats, env:: entries) yields their values")
 	} else {
-		vpAssert(err != nil, "a field list that lacks a mandatory field, or names an unknown one, is refused however it is padded")
+		vpAssert(err != nil, "a field list that lacks a mandatory field is refused however it is padded")
 	}
 }
 
